@@ -215,6 +215,14 @@ class C32:
     try:
       m2, s2 = self.reload(text, filedir)
     except mj.MjError as e:
+      lost = self.fusestatic_lost_names(m, spec, text)
+      if lost:
+        ck.violation('%s: saved XML does not load again (%s)  [with fusestatic, %s that sit inside a <frame> of a static body '
+                     'that was fused into its parent are missing from the saved XML]' % (name, str(e)[:160], ', '.join(lost[:6])),
+                     replay, bucket='fusestatic-framed-children-not-saved', fingerprint='fusestatic-framed-children-not-saved')
+        facts['known'] = True
+        facts['fps'] = ['fusestatic-framed-children-not-saved']
+        return facts
       raise Violation('%s: saved XML does not load again: %s' % (name, str(e)[:300]), bucket='saved-xml-rejected')
     try:
       diffs = compare17(lib, m, m2)
@@ -293,6 +301,18 @@ class C32:
               name, f, i[0], w, float(a2[i]), float(b2[i])), bucket='roundtrip6-float:' + f)
     return facts
 
+  def fusestatic_lost_names(self, m, spec, text):
+    """Named objects of the compiled model that do not occur in the saved text, when the spec uses fusestatic."""
+    lib = self.lib
+    if not Struct(lib, 'mjSpec', spec).compiler.fusestatic:
+      return []
+    out = []
+    for kind, names in name_orders(lib, m).items():
+      for n in names:
+        if n and n != 'world' and ('name="%s"' % n) not in text:
+          out.append('%s %s' % (kind, n))
+    return out
+
   def classify(self, m, m2, spec, text, filedir, diffs, unsafe):
     """Known writer findings.  Returns [(fingerprint, explanation)] that together explain the mismatch, or [] (= violation).
     Attributes the writer does not save are re-inserted into the saved text ("repairs"); the smallest set of repairs after
@@ -343,14 +363,19 @@ class C32:
                       'which is transformed again on reload'))
         if ok:
           return out
-      if comp.fusestatic and all((d.kind == 'size' and d.field.startswith('nbvh')) or
+      if comp.fusestatic and all((d.kind == 'size' and (d.field.startswith('nbvh') or d.field == 'nJmom')) or
                                  (d.kind == 'int' and d.field.endswith(('id', 'trnid', 'objid', 'refid'))) for d in ds):
         return [('fusestatic-stale-ids', 'with fusestatic the ORIGINAL compile keeps ids/BVH nodes computed before the static '
                  'body was fused (same root cause as C36 fusestatic-stale-geom-site-ids); the reloaded model, in which '
                  'the bodies are already fused, has the correct ids')]
+      if comp.fusestatic and (comp.boundmass > 0 or comp.boundinertia > 0) and \
+          set(d.field for d in ds) <= (MASS_SCALE_FIELDS | MASS_FRAME_FIELDS):
+        return [('fusestatic-bound-order', 'with fusestatic and boundmass/boundinertia the first compile bounds every body and '
+                 'then fuses (sum of bounded values), while the saved, already fused model is bounded once: mass properties of '
+                 'the fused body differ after reload')]
       if comp.fusestatic and all(d.kind == 'size' for d in ds):
         na, nb = name_orders(lib, ma), name_orders(lib, mb)
-        lost = [k for k in ('geom', 'site', 'camera', 'light') if len(nb[k]) < len(na[k])]
+        lost = [k for k in ('body', 'joint', 'geom', 'site', 'camera', 'light') if len(nb[k]) < len(na[k])]
         if lost and all(set(x for x in nb[k] if x) <= set(x for x in na[k] if x) and len(nb[k]) <= len(na[k]) for k in na):
           return [('fusestatic-framed-children-not-saved', 'with fusestatic, %s that sit inside a <frame> of a static body '
                    'that was fused into its parent are missing from the saved XML' % '/'.join(lost))]
@@ -411,6 +436,27 @@ class C32:
       raise Violation('%s: XML written by mj_saveLastXML does not load: %s' % (name, str(e)[:300]), bucket='savelast-rejected')
     lib.mj_deleteSpec(s2)
     return m, m2, text
+
+
+def regressions(ck):
+  """Committed reproducers (replays/C32/index.json) through the same oracle: a defect that is still present reports under
+  its fingerprint (KNOWN-FINDING once listed); a repaired one passes."""
+  import json
+  from vf import mj
+  path = os.path.join(os.path.dirname(WORK), 'replays', 'C32', 'index.json')
+  if not os.path.exists(path):
+    return
+  c = C32(ck)
+  lib = c.lib
+  for r in json.load(open(path)):
+    m, s = lib.model_from_xml(r['xml'], keep_spec=True)
+    try:
+      facts = c.check_spec('replay:' + r['id'], m, s, src_xml=r['xml'], unsafe=order_unsafe(r['xml']), replay=dict(replay=r['id']))
+      ck.label('replay:%s:%s' % (r['id'], 'still-present' if facts['known'] else 'passes'))
+    except Violation as e:
+      ck.violation('Violation: %s' % e, dict(replay=r['id'], xml=r['xml']), bucket=e.bucket)
+    finally:
+      lib.mj_deleteSpec(s)
 
 
 def main(ck):
